@@ -220,12 +220,6 @@ mod jvms {
 		if w.i != b.len() { return Err(format!("{} trailing bytes", b.len() - w.i)); }
 		Ok(w.wide)
 	}
-	/// does the constant pool (walked with the two-slot rule) contain a Long or Double?  None: pool malformed
-	pub fn pool_has_wide(b: &[u8]) -> Option<bool> {
-		let mut w = W { b, i: 8, utf8: vec![], wide: false };
-		if b.len() < 10 { return None; }
-		w.pool().ok().map(|_| w.wide)
-	}
 }
 
 // ------------------------------------------------------------------ generators
@@ -235,12 +229,22 @@ const ATTR_NAMES: [&str; 32] = ["ConstantValue", "Code", "StackMapTable", "Excep
 	"MethodParameters", "Module", "ModulePackages", "ModuleMainClass", "NestHost", "NestMembers", "Record", "PermittedSubclasses",
 	"RuntimeVisibleTypeAnnotations", "Unknown", "X", ""];
 
+/// JVMS 4.4.5 (written for the harness, not the crate's `CpInfo::slots`): an 8-byte constant takes up two pool indices
+fn is_wide(c: &CpInfo) -> bool { matches!(c, CpInfo::Long { .. } | CpInfo::Double { .. }) }
+fn indices_used(e: &[CpInfo]) -> usize { e.iter().map(|c| if is_wide(c) { 2 } else { 1 }).sum() }
+
+/// a pool under construction; the numbers returned are JVMS pool indices (the first entry has index 1, the entry
+/// after a Long/Double at n has index n + 2)
 #[derive(Default)]
 struct Pool { e: Vec<CpInfo> }
 impl Pool {
-	fn push(&mut self, c: CpInfo) -> u16 { self.e.push(c); self.e.len() as u16 }
+	fn push(&mut self, c: CpInfo) -> u16 { let i = 1 + indices_used(&self.e); self.e.push(c); i as u16 }
 	fn utf8(&mut self, s: &str) -> u16 {
-		for (i, c) in self.e.iter().enumerate() { if let CpInfo::Utf8 { bytes } = c { if bytes == s.as_bytes() { return i as u16 + 1; } } }
+		let mut index = 1u16;
+		for c in &self.e {
+			if let CpInfo::Utf8 { bytes } = c { if bytes == s.as_bytes() { return index; } }
+			index += if is_wide(c) { 2 } else { 1 };
+		}
 		self.push(CpInfo::Utf8 { bytes: s.as_bytes().to_vec() })
 	}
 	fn class(&mut self, s: &str) -> u16 { let n = self.utf8(s); self.push(CpInfo::Class { name_index: n }) }
@@ -252,7 +256,7 @@ impl Pool {
 struct RawGen<'a> { rng: &'a mut Rng, pool: Pool, budget: i64, wide: bool }
 impl<'a> RawGen<'a> {
 	fn u16(&mut self) -> u16 { match self.rng.below(6) { 0 => 0, 1 => 0xFFFF, 2 => self.rng.below(256) as u16, _ => self.rng.below(65536) as u16 } }
-	fn idx(&mut self) -> u16 { self.rng.range(0, self.pool.e.len().max(1) + 1) as u16 }
+	fn idx(&mut self) -> u16 { self.rng.range(0, indices_used(&self.pool.e).max(1) + 1) as u16 }
 	fn n(&mut self, max: usize) -> usize { if self.budget <= 0 { 0 } else { let k = self.rng.below(max + 1); self.budget -= k as i64; k } }
 	fn u16s(&mut self, max: usize) -> Vec<u16> { let k = self.n(max); (0..k).map(|_| self.idx()).collect() }
 	fn cp(&mut self) -> CpInfo {
@@ -385,6 +389,8 @@ fn gen_valid(rng: &mut Rng) -> (ClassFile, Facts) {
 	let mut p = Pool::default();
 	let names = ["pkg/Alpha", "Beta", "a/b/Gamma", "Delta$Inner"];
 	let name = names[rng.below(names.len())].to_string();
+	// 8-byte constants in front of everything: every index used below lies behind their second indices
+	for _ in 0..rng.below(3) { p.push(if rng.chance(1, 2) { CpInfo::Long { high_bytes: rng.next() as u32, low_bytes: rng.next() as u32 } } else { CpInfo::Double { high_bytes: rng.next() as u32, low_bytes: rng.next() as u32 } }); }
 	let this_class = p.class(&name);
 	let super_class = p.class("java/lang/Object");
 	let interfaces: Vec<u16> = (0..rng.below(3)).map(|i| p.class(["java/lang/Runnable", "java/io/Serializable"][i])).collect();
@@ -392,9 +398,13 @@ fn gen_valid(rng: &mut Rng) -> (ClassFile, Facts) {
 	let mut fields = vec![];
 	for i in 0..rng.below(3) {
 		let n = format!("f{i}");
-		let is_int = rng.chance(1, 2);
+		let kind = rng.below(4);   // int, String, long, double
+		let is_int = kind != 1;
 		let mut attributes = vec![];
-		if is_int && rng.chance(1, 2) { let c = p.push(CpInfo::Integer { bytes: rng.next() as u32 }); attributes.push(AttributeInfo::ConstantValue { attribute_name_index: p.utf8("ConstantValue"), constantvalue_index: c }); }
+		if is_int && rng.chance(1, 2) {
+			let c = p.push(match kind { 0 => CpInfo::Integer { bytes: rng.next() as u32 }, 2 => CpInfo::Long { high_bytes: rng.next() as u32, low_bytes: rng.next() as u32 }, _ => CpInfo::Double { high_bytes: 0x40040000, low_bytes: 0 } });
+			attributes.push(AttributeInfo::ConstantValue { attribute_name_index: p.utf8("ConstantValue"), constantvalue_index: c });
+		}
 		if rng.chance(1, 3) { attributes.push(AttributeInfo::Deprecated { attribute_name_index: p.utf8("Deprecated") }); }
 		if rng.chance(1, 3) { attributes.push(AttributeInfo::Synthetic { attribute_name_index: p.utf8("Synthetic") }); }
 		if rng.chance(1, 3) {
@@ -403,7 +413,7 @@ fn gen_valid(rng: &mut Rng) -> (ClassFile, Facts) {
 			attributes.push(AttributeInfo::RuntimeVisibleAnnotations { attribute_name_index: p.utf8("RuntimeVisibleAnnotations"),
 				annotations: vec![Annotation { type_index: ty, element_value_pairs: vec![ElementValuePairsEntry { element_name_index: en, value: ElementValue::String { const_value_index: s } }] }] });
 		}
-		fields.push(FieldInfo { access_flags: 0x0019 & if is_int { 0xFFFF } else { 0x0001 }, name_index: p.utf8(&n), descriptor_index: p.utf8(if is_int { "I" } else { "Ljava/lang/String;" }), attributes });
+		fields.push(FieldInfo { access_flags: 0x0019 & if is_int { 0xFFFF } else { 0x0001 }, name_index: p.utf8(&n), descriptor_index: p.utf8(["I", "Ljava/lang/String;", "J", "D"][kind]), attributes });
 		f.fields.push(n);
 	}
 	let mut methods = vec![];
@@ -488,8 +498,7 @@ fn duke_facts(bytes: &[u8], f: &Facts) -> Result<(), String> {
 
 // ------------------------------------------------------------------ running one input
 fn hex(b: &[u8]) -> String { b.iter().map(|x| format!("{x:02x}")).collect::<Vec<_>>().join("") }
-fn has_wide(c: &ClassFile) -> bool { c.constant_pool.iter().any(|e| matches!(e, CpInfo::Long { .. } | CpInfo::Double { .. })) }
-const F10: &str = "F10 constant pools with Long/Double entries: the unusable second slot is neither counted when writing nor skipped when reading";
+fn has_wide(c: &ClassFile) -> bool { c.constant_pool.iter().any(is_wide) }
 
 /// a raw value: write, length, read back; oracle on the implementation alone; one CVal case
 fn through_value(r: &mut Report, stream: &str, c: &ClassFile, hyp: Option<bool>, emit: bool) -> Option<Vec<u8>> {
@@ -519,9 +528,8 @@ fn through_value(r: &mut Report, stream: &str, c: &ClassFile, hyp: Option<bool>,
 		}
 		if hyp == Some(true) {
 			match jvms::check(bytes) {
-				Ok(_) if !has_wide(c) => r.count("jvms_layout_ok"),
-				Ok(_) => r.count("jvms_layout_ok_wide_by_accident"),
-				Err(e) if has_wide(c) => { r.count("known_F10_written"); r.known(F10.into()); let _ = e; }
+				Ok(w) if w == has_wide(c) => r.count(if w { "jvms_layout_ok_wide_pool" } else { "jvms_layout_ok" }),
+				Ok(w) => r.violation(format!("the walker sees {} 8-byte constant in the written pool, the value has {}", if w { "an" } else { "no" }, if has_wide(c) { "one" } else { "none" }), replay("written pool and value disagree about Long/Double entries", format!("bytes: {}", hex(bytes)))),
 				Err(e) => r.violation(format!("written file is not laid out as the JVMS prescribes: {e}"), replay("an independent strict JVMS walker rejects the bytes the crate wrote", format!("walker: {e}\nbytes: {}", hex(bytes)))),
 			}
 		}
@@ -551,19 +559,18 @@ fn through_bytes(r: &mut Report, stream: &str, b: &[u8], origin: &str, emit: boo
 			r.count(if same { "read_ok_rewrite_exact" } else { "read_ok_rewrite_differs" });
 			if let Ok(wide) = &wf {
 				if !same || *pos != b.len() {
-					if *wide { r.count("known_F10_read"); r.known(F10.into()); }
-					else { r.violation("a well-formed class file is not reproduced byte for byte".into(), replay("read then to_bytes differs from the input (input accepted by the strict JVMS walker)", format!("rewritten: {:?}", out.as_ref().map(|o| hex(o))))); }
+					r.violation("a well-formed class file is not reproduced byte for byte".into(), replay("read then to_bytes differs from the input (input accepted by the strict JVMS walker)", format!("rewritten: {:?}", out.as_ref().map(|o| hex(o)))));
 				} else {
-					r.count("wellformed_byte_exact");
+					r.count(if *wide { "wellformed_byte_exact_wide_pool" } else { "wellformed_byte_exact" });
+					if *wide != has_wide(v) { r.violation("the value read and the 4.4.5 walk of the input disagree about Long/Double entries".into(), replay("has_wide(read(b)) differs from the walker's answer", String::new())); }
 					if let Ok(o) = &out { if impl_length(v).ok() != Some(o.len()) { r.violation("length() differs from bytes written after read".into(), replay("length()", String::new())); } }
 				}
 			}
 		}
 		Ok(None) | Err(_) => {
 			r.count(if rd.is_err() { "read_panicked" } else { "read_error" });
-			if let Ok(wide) = &wf {
-				if *wide || jvms::pool_has_wide(b) == Some(true) { r.count("known_F10_read"); r.known(F10.into()); }
-				else { r.violation("a well-formed class file cannot be read".into(), replay("ClassFile::read fails on input accepted by the strict JVMS walker", format!("{:?}", rd.as_ref().map(|_| ())))); }
+			if wf.is_ok() {
+				r.violation("a well-formed class file cannot be read".into(), replay("ClassFile::read fails on input accepted by the strict JVMS walker", format!("{:?}", rd.as_ref().map(|_| ()))));
 			}
 		}
 	}
@@ -592,6 +599,44 @@ fn corpus_files() -> Vec<(String, Vec<u8>)> {
 		fs.sort();
 		for f in fs { if let Ok(b) = std::fs::read(&f) { out.push((format!("{}/{}", d.file_name().unwrap().to_string_lossy(), f.file_name().unwrap().to_string_lossy()), b)); } }
 	}
+	out
+}
+
+/// the class-file corpus shared by the class-file properties (corpus/classes: javac 8/11/17 output, 260 third-party and JDK
+/// classes, crafted ones), in path order
+fn shared_corpus_files() -> Vec<(String, Vec<u8>)> {
+	fn walk(d: &std::path::Path, out: &mut Vec<std::path::PathBuf>) {
+		let mut es: Vec<_> = std::fs::read_dir(d).map(|d| d.filter_map(|e| e.ok()).map(|e| e.path()).collect()).unwrap_or_default();
+		es.sort();
+		for p in es { if p.is_dir() { walk(&p, out); } else if p.extension().map(|x| x == "class").unwrap_or(false) { out.push(p); } }
+	}
+	let root = std::path::Path::new(env!("CARGO_MANIFEST_DIR")).parent().unwrap().join("corpus").join("classes");
+	let mut ps = vec![];
+	walk(&root, &mut ps);
+	ps.into_iter().filter_map(|p| std::fs::read(&p).ok().map(|b| (p.strip_prefix(&root).unwrap_or(&p).display().to_string(), b))).collect()
+}
+
+/// pools with 8-byte constants under every constant_pool_count around the right one, and attribute names designating each
+/// index of such a pool (an entry, the unusable second index of a Long/Double, one past the end)
+fn crafted_wide() -> Vec<(String, Vec<u8>)> {
+	let mut out = vec![];
+	let mut p = Pool::default();
+	let l = p.push(CpInfo::Long { high_bytes: 1, low_bytes: 2 });
+	let dep = p.utf8("Deprecated");
+	let d = p.push(CpInfo::Double { high_bytes: 0x40040000, low_bytes: 0 });
+	assert!((l, dep, d) == (1, 3, 4));
+	let mk = |ani: u16| ClassFile { minor_version: 0, major_version: 52, constant_pool: p.e.clone(), access_flags: 0x21, this_class: 0, super_class: 0,
+		interfaces: vec![], fields: vec![], methods: vec![], attributes: vec![AttributeInfo::Deprecated { attribute_name_index: ani }] }.to_bytes();
+	let base = mk(dep);
+	out.push(("wide pool unchanged (count 6, entries at 1, 3, 4)".to_string(), base.clone()));
+	for c in 1..=9u8 { if c != 6 { let mut b = base.clone(); b[9] = c; out.push((format!("wide pool announced with constant_pool_count {c} instead of 6"), b)); } }
+	for ani in [0u16, 1, 2, 4, 5, 6, 7] { out.push((format!("wide pool, attribute_name_index {ani} (the Utf8 entry is at 3)"), mk(ani))); }
+	// a Long as the last entry with only one index left for it, and with none
+	let mut q = Pool::default();
+	q.utf8("X"); q.push(CpInfo::Long { high_bytes: 0, low_bytes: 0 });
+	let b2 = ClassFile { minor_version: 0, major_version: 52, constant_pool: q.e.clone(), access_flags: 0, this_class: 0, super_class: 0, interfaces: vec![], fields: vec![], methods: vec![], attributes: vec![] }.to_bytes();
+	out.push(("wide pool: Utf8 then Long, count 4".into(), b2.clone()));
+	for c in [2u8, 3, 5] { let mut b = b2.clone(); b[9] = c; out.push((format!("wide pool: Utf8 then Long announced with constant_pool_count {c} instead of 4"), b)); }
 	out
 }
 
@@ -663,7 +708,7 @@ fn crafted() -> Vec<(String, Vec<u8>)> {
 pub fn run(ctx: &Ctx) -> anyhow::Result<Report> {
 	let mut r = Report::new("C20", "C20.Run");
 	let mut rng = Rng::new(ctx.seed);
-	r.rule = "streams: corpus (javac 17 --release 8/11/17 classes vendored under corpus/C20, read + rewritten); raw (random raw ClassFile values over every struct/enum/variant the crate declares, attribute names interned so that tags resolve: inside the hypotheses of read_write); raw-wide (same with Long/Double pool entries); valid (small semantically valid classes, also cross-read by duke::read_class and compared with the generator's ground truth); violating (one sub-stream per hypothesis of read_write: frame tags resolving elsewhere, u8 tag overflow, attribute names designating another/no name, count wider than its field); written (bytes the crate wrote, read as input); crafted (deterministic edits: wrong magic, pool count 0/1/65535, literal and computed attribute_length off, name index 0 / not Utf8 / past the pool / unknown name, giant counts, every truncation, trailing bytes); mutated (1-3 byte edits/truncations of corpus and written files). Oracle on the implementation alone: length()==bytes written, write()==to_bytes(), read(to_bytes(v))==v, files accepted by an independent strict JVMS walker are reproduced byte for byte and files the crate writes are accepted by it. Non-trivial: non-empty pool or attributes / more than 24 bytes; distinct by Debug text or bytes.".into();
+	r.rule = "streams: corpus (javac 17 --release 8/11/17 classes vendored under corpus/C20, read + rewritten); shared-corpus (every class of corpus/classes — javac 8/11/17 output, 260 third-party/JDK classes, crafted ones; 76 of them with long/double constants — through the oracle, the smaller ones with 8-byte constants also as correspondence cases); raw (random raw ClassFile values over every struct/enum/variant the crate declares, attribute names interned so that tags resolve: inside the hypotheses of read_write); raw-wide (same with Long/Double pool entries in front of and behind the interned attribute names: indices are JVMS indices, an 8-byte constant takes two); valid (small semantically valid classes, also cross-read by duke::read_class and compared with the generator's ground truth); violating (one sub-stream per hypothesis of read_write: frame tags resolving elsewhere, u8 tag overflow, attribute names designating another/no name, count wider than its field); written (bytes the crate wrote, read as input); crafted (deterministic edits: wrong magic, pool count 0/1/65535, literal and computed attribute_length off, name index 0 / not Utf8 / past the pool / unknown name, giant counts, every truncation, trailing bytes; pools with 8-byte constants announced with every count around the right one, attribute names designating every index of such a pool incl. the unusable second index of a Long/Double — refused with an error, never a panic); mutated (1-3 byte edits/truncations of corpus and written files). Oracle on the implementation alone: length()==bytes written, write()==to_bytes(), read(to_bytes(v))==v, files accepted by an independent strict JVMS walker are reproduced byte for byte and files the crate writes are accepted by it. Non-trivial: non-empty pool or attributes / more than 24 bytes; distinct by Debug text or bytes.".into();
 	let (n_raw, n_valid, n_viol, n_mut) = if ctx.thorough { (3000, 900, 270, 3000) } else { (320, 100, 54, 300) };
 	r.shard_size = if ctx.thorough { 170 } else { 62 };
 
@@ -714,7 +759,7 @@ pub fn run(ctx: &Ctx) -> anyhow::Result<Report> {
 				let a = guarded(move || duke::read_class(&mut Cursor::new(&o2)).map(|c| format!("{c:?}")).map_err(|e| e.to_string()));
 				let b2 = b.clone();
 				let e = guarded(move || duke::read_class(&mut Cursor::new(&b2)).map(|c| format!("{c:?}")).map_err(|e| e.to_string()));
-				if a == e { r.count("duke_corpus_same_tree"); } else if jvms::check(b).ok() != Some(true) {
+				if a == e { r.count("duke_corpus_same_tree"); } else {
 					r.violation(format!("duke sees another class in the rewritten {name}"), format!("property C20, corpus {name}: duke::read_class(original) != duke::read_class(read+to_bytes)\noriginal: {}\nrewritten: {}", hex(b), hex(&out)));
 				}
 			}
@@ -728,6 +773,25 @@ pub fn run(ctx: &Ctx) -> anyhow::Result<Report> {
 	}
 	// 5 crafted edits, then random mutations
 	for (what, b) in crafted() { through_bytes(&mut r, "crafted", &b, &what, true); }
+	for (what, b) in crafted_wide() {
+		if impl_read(&b).is_err() { r.violation(format!("ClassFile::read panicked on: {what}"), format!("property C20, stream crafted-wide\nClassFile::read panics (an io::Error is expected) on: {what}\nclass file bytes (hex):\n{}", hex(&b))); }
+		if b.len() <= 500 { seeds.push(b.clone()); }
+		through_bytes(&mut r, "crafted-wide", &b, &what, true);
+	}
+	// 6 the corpus shared by the class-file properties: oracle on every file, correspondence cases for the smaller ones with 8-byte constants
+	let shared = shared_corpus_files();
+	r.notes.push(format!("shared corpus: {} class files", shared.len()));
+	let (mut shared_wide, mut shared_emitted, mut shared_rejected) = (0, 0, vec![]);
+	let shared_limit = if ctx.thorough { (3000, 120) } else { (1200, 24) };
+	for (name, b) in &shared {
+		let wide = matches!(jvms::check(b), Ok(true));
+		if wide { shared_wide += 1; }
+		if jvms::check(b).is_err() { shared_rejected.push(name.clone()); }
+		let emit = wide && b.len() <= shared_limit.0 && shared_emitted < shared_limit.1;
+		if emit { shared_emitted += 1; }
+		through_bytes(&mut r, "shared-corpus", b, name, emit);
+	}
+	r.notes.push(format!("shared corpus: {shared_wide} well-formed files with long/double constants, {shared_emitted} of them also correspondence cases; not well-formed for the strict walker (predefined attribute names on foreign bytes, by construction): {shared_rejected:?}"));
 	for i in 0..n_mut {
 		let mut b = seeds[rng.below(seeds.len())].clone();
 		for _ in 0..rng.range(1, 3) { mutate(&mut rng, &mut b); }
